@@ -10,7 +10,7 @@ Definition with_extract (c : cfg) (f : list N -> list N -> xres) : cfg := {|
   c_exts := c_exts c; c_required := c_required c; c_statreq := c_statreq c; c_extract := f; c_pat := c_pat c;
   c_skip_list := c_skip_list c; c_re := c_re c; c_glob := c_glob c; c_gitignore := c_gitignore c;
   c_ignore_subdirs := c_ignore_subdirs c; c_paths := c_paths c; c_symlinks := c_symlinks c;
-  c_max_inodes := c_max_inodes c; c_max_size := c_max_size c; c_fatal := c_fatal c; c_cancel := c_cancel c |}.
+  c_max_inodes := c_max_inodes c; c_max_size := c_max_size c; c_fatal := c_fatal c; c_abs := c_abs c; c_cancel := c_cancel c |}.
 
 (* everything of the walk context except the three result maps *)
 Definition sk (st : state) := (s_inodes st, s_nvisit st, s_nextract st, s_stack st, s_events st).
